@@ -295,10 +295,12 @@ pub fn check_c10() -> PropertyCheck {
       // exactly-once / membership of subject delivery is C06's statement
       Box::new(OnlyRules { inner: Box::new(crate::props::c06::C06Threads), keep: &[".overlap", ".common-order", ".grammar", ".deadlock", ".livelock", ".panic"] }),
       Box::new(crate::props::c14::C14Threads),
+      // debounce / throttle / sample / buffer timers on pool workers against an emitting thread
+      Box::new(OnlyRules { inner: Box::new(crate::props::c09::C09Threads), keep: &[".overlap", ".grammar", ".deadlock", ".livelock", ".panic"] }),
       // merge_all_threads / concat_all_threads with one emitting thread per inner and an unsubscribing thread
       Box::new(OnlyRules { inner: Box::new(crate::props::c05::C05Threads), keep: &[".overlap", ".grammar", ".deadlock", ".livelock", ".panic"] }),
     ],
-    runs: (260_000, 10_000_000),
+    runs: (300_000, 12_000_000),
     rule: "pipelines: random _threads operator tree (depth <=2, 1-2 hot inputs, incl. merge/zip/combine_latest/take_until/merge_all/share/observe_on/delay _threads) driven by 2-3 simulated threads (next/complete/error, optionally one unsubscribing thread) plus 0-2 pool workers, every interleaving decision at MutArc lock points and inside probe callbacks drawn from the PRNG (random walk, PCT d<=3, mostly-sequential); subject part: the C06 thread scenario; blocking calls (wait_for_end, parked to_future/to_stream waiters against a producing thread): the C14 thread scenario, whose 'every call returns / no lost wakeup' rules are C10's as well; non-trivial = >=1 decision with >1 eligible thread; distinct = distinct (case, schedule, behaviour) hashes",
     assumptions: vec!["no callback re-enters its own pipeline (the property's stated precondition)", "interleavings at lock granularity, sequentially consistent"],
   }
